@@ -127,6 +127,10 @@ impl Property for P {
             Case { max: 10, size0: 4, disc0: true, ops: [enq(1, 4), vec![Modify(2, false, 2), Enq(5), Modify(2, false, 3), Enq(6), Drain]].concat() },
             Case { max: 1, size0: 9, disc0: true, ops: [enq(1, 3), vec![Modify(7, false, 0)], enq(4, 5)].concat() },
             Case { max: 10, size0: 3, disc0: true, ops: vec![Drain, Modify(1, true, 0), Drain] },
+            // a configured server maximum of 0 (ServerConfig::is_valid accepts it): the revised size was 0
+            // and the queue then grew without bound
+            Case { max: 0, size0: 5, disc0: true, ops: enq(1, 4) },
+            Case { max: 0, size0: 1, disc0: false, ops: [enq(1, 2), vec![Modify(3, false, 0)], enq(3, 5)].concat() },
         ];
         if tier == "thorough" {
             // every (size0, new size, policy, fill) for sizes up to 5: fill, shrink/grow, two more samples
